@@ -14,7 +14,7 @@ STRUCT = r"(struct\.|uf\.|canon\.)"
 SEM = r"(sn\.|closed\.|age\.|stale\.|delta\.|compaction-bound)"
 PROPS = {
     "C04": {
-        "classes": r"^(?!step\.early).*" + STRUCT,
+        "classes": r"^(?!step\.early).*(" + STRUCT + r"|queries\.canon)",
         "lemmas": lambda n: True,
         "witness": "struct",
         "explanation": "bounded inductive verification: every index copy / element index / type set / union-find invariant "
@@ -31,6 +31,17 @@ PROPS = {
                        "reference semantics has its conclusion present or pending), INV-age and the bookkeeping invariants are inductive "
                        "over new(), every public mutator, the prologue and one arbitrary loop iteration of the generated close_until; "
                        "at `return false` every rule of the reference semantics (incl. functionality) holds for every assignment",
+    },
+    "C05": {
+        "classes": r"^(effects\.|queries\.(root|are_equal|no-panic)|uf\.|api\..*no-panic)",
+        "lemmas": lambda n: n.startswith("effects.") or n in ("queries", "uf") or n.startswith("api."),
+        "witness": "effects",
+        "explanation": "bounded verification of the functional contract of every public mutator and query on the real generated functions: "
+                       "from every state satisfying the between-closes invariant, with symbolic arguments, insert_ is visible at once through "
+                       "the point query and exactly once through the iterator (when nothing was equated since the last close), define_ returns an "
+                       "existing value or exactly one fresh element, new_ returns a fresh id, equate_ changes are_equal_ to exactly the generated "
+                       "equivalence and nothing else changes it, root_ is an idempotent representative inside the class and the identity on "
+                       "unallocated ids; the real unification.rs is interpreted from an arbitrary forest (and decided again by Kani in the thorough tier)",
     },
     "C07": {
         "classes": r"^step\.(early|contract)",
@@ -75,6 +86,8 @@ def main():
         schemas[name] = (su, sch)
         for U in tier_universes(tier, name, corpus):
             for lname, _ in L.all_lemmas(su):
+                if lname == "uf" and name != sorted(corpus.programs)[0]:
+                    continue          # program independent: once is enough
                 if cfg["lemmas"](lname):
                     tasks.append({"program": name, "rs": pinfo["rs"], "eql": pinfo["eql"], "U": U, "lemma": lname,
                                   "classes": cfg["classes"], "solver": solver, "timeout": timeout})
@@ -107,6 +120,12 @@ def main():
         for lab, ok in r.get("cover", {}).items():
             cover[(r["lemma"], lab)] = cover.get((r["lemma"], lab), False) or ok
     vacuous = [k for k, ok in cover.items() if not ok]
+    kani = None
+    if prop == "C05" and tier == "thorough":
+        import kani_uf
+        P.log("Kani on the real unification.rs")
+        kani = kani_uf.run(scratch)
+        P.log("Kani: %s" % kani)
     inconclusive = [r for r in results if r["status"] == "inconclusive"]
     failed = [r for r in results if r["status"] == "failed"]
     violations = []
@@ -130,6 +149,7 @@ def main():
         plans = [(2, 2, 2), (2, 3, 2), (2, 4, 3), (3, 3, 2), (3, 4, 3)] if tier == "quick" else \
                 [(2, 2, 2), (2, 3, 2), (2, 4, 3), (2, 5, 3), (3, 3, 2), (3, 4, 3), (3, 5, 3), (3, 6, 4)]
         wtasks.append({"program": name, "rs": corpus.programs[name]["rs"], "eql": corpus.programs[name]["eql"], "kind": cfg["witness"],
+                       "lemmas": sorted(set(r["lemma"][len("effects."):] for r in rs if r["lemma"].startswith("effects."))),
                        "plans": plans, "timeout": timeout, "budget": 240 if tier == "quick" else 1800,
                        "scratch": scratch, "exe": getattr(harness, "exe", None)})
     P.log("witness search for %d programs" % len(wtasks))
@@ -176,6 +196,7 @@ def main():
         "inconclusive": [{k: r[k] for k in ("program", "U", "lemma", "reason")} for r in inconclusive][:10],
         "unconfirmed": [str(u)[:600] for u in unconfirmed][:10],
         "compiler_build_s": round(build_s, 1),
+        "kani_unification": kani,
     }
     assumptions = [
         "WBTreeMap/WBTreeSet behave as ordered finite maps (C14, not decided by this family)",
